@@ -14,6 +14,11 @@ theorem assign_round_robin (n : Nat) (ops : List AOp) :
     ∀ p ∈ runOps true n reset 0 ops, p.2 = p.1 % n :=
   Mpire.Proofs.Dispatch.assign_round_robin n ops reset 0 rfl
 
+/-- In particular apply tasks submitted while a call is open (`AOp.apply` anywhere in `ops`) do not shift the numbering of its
+chunks: they are handed out in an order of their own.  The pinned code used one counter for both — a witness (defect D32): -/
+theorem pinned_apply_shifts_numbering : ∃ ops, ∃ p ∈ runOpsPinned 3 reset 0 ops, p.2 ≠ p.1 % 3 :=
+  ⟨[.assign, .apply, .assign], (1, 2), by decide, by decide⟩
+
 /-- Every assignment (either mode) names an existing worker, provided completions do. -/
 theorem assign_in_range (orderTasks : Bool) (n : Nat) (hn : 0 < n) (a : Assign) (h : ∀ w ∈ a.lastCompleted, w < n) :
     (assign orderTasks n a).1 < n ∧ ∀ w ∈ (assign orderTasks n a).2.lastCompleted, w < n :=
@@ -36,5 +41,6 @@ example : ((Mpire.History.callStart (Mpire.History.runOps {} [.apply 1 (.settled
 example : runOps true 3 reset 0 [.assign, .completed 2, .assign, .assign, .completed 0, .assign, .reset, .assign] =
     [(0, 0), (1, 1), (2, 2), (3, 0), (0, 0)] := by decide +kernel
 example : runOps false 3 reset 0 [.assign, .completed 2, .assign, .assign] = [(0, 0), (1, 2), (2, 1)] := by decide +kernel
+example : runOps true 3 reset 0 [.assign, .apply, .assign, .apply, .apply, .assign] = [(0, 0), (1, 1), (2, 2)] := by decide +kernel
 
 end Mpire.C16
